@@ -123,7 +123,8 @@ type ConnBackendPlan struct {
 	ParkNewSession Dur // NewSession is slow (it is called with no lock held)
 	ParkMail       Dur
 	ParkRcpt       Dur
-	ParkLogout     Dur // only applied when Logout is not called under Conn.locker
+	ParkLogout     Dur  // only applied when Logout is not called under Conn.locker
+	LogoutErr      bool // Logout returns an error (the interface allows it; nothing may depend on it)
 	Auth           *AuthPlan
 }
 
@@ -346,6 +347,11 @@ func (s *simSession) Logout() error {
 	ev := s.b.begin(s.conn, s.id, "Logout", "")
 	if s.cp.ParkLogout > 0 && !underConnLock() {
 		ev.park(s.cp.ParkLogout)
+	}
+	if s.cp.LogoutErr {
+		err := errors.New("logout failed")
+		ev.finish(err)
+		return err
 	}
 	ev.finish(nil)
 	return nil
